@@ -236,6 +236,60 @@ def ob_override():
     return h
 
 
+def ob_override_static():
+    """meson.override_dependency(name, dep, static: true | false | <absent>) - the real MesonMain.override_dependency_method and _override_dependency_impl on a
+    recording Build - followed by the lookups dependency(name) / dependency(name, static: true) / dependency(name, static: false) through the real
+    DependencyFallbacksHolder, under default_library = shared | static | both (symbolic): a lookup whose `static` agrees with the override's (an unspecified
+    side agrees with everything; an override without `static:` follows default_library) returns the overridden dependency, and the documented idiom of two
+    overrides - static: false, then static: true - is accepted"""
+    def h():
+        from mesonbuild.interpreter.mesonmain import MesonMain
+        from mesonbuild.interpreter.type_checking import DEPENDENCY_KWS
+        full = lambda kw: dict({k.name: k.default for k in DEPENDENCY_KWS}, **kw)
+        dl = sym_enum(['shared', 'static', 'both'], 'default_library')
+        dlv = dl.concretize() if hasattr(dl, 'concretize') else dl
+        ostatic = [None, True, False][choose(3, 'static: of the override')]
+        second = choose(2, 'a second override for the other flavour') == 1 and ostatic is not None
+        lstatic = [None, True, False][choose(3, 'static: of the lookup')]
+        interp = types.SimpleNamespace(subproject='', current_node=types.SimpleNamespace(filename='meson.build', lineno=1), project_version='1')
+        interp.coredata = types.SimpleNamespace(optstore=types.SimpleNamespace(get_value_for=lambda k: dlv if k.name == 'default_library' else ('default' if k.name == 'wrap_mode' else [])), deps={MachineChoice.HOST: {}})
+        class Cache(dict):
+            def put(self, k, v): self[k] = v
+        interp.coredata.deps = {MachineChoice.HOST: Cache()}
+        bld = types.SimpleNamespace(dependency_overrides={MachineChoice.HOST: {}, MachineChoice.BUILD: {}})
+        interp.build = bld
+        interp.apply_machine_map_to_kwargs = lambda kwargs: None          # a native build: the machine map is the identity
+        mm = object.__new__(MesonMain)
+        mm.interpreter = interp; mm.build = bld; mm.subproject = ''; mm.current_node = interp.current_node
+        odep = mkdep('override', True, '1'); odep2 = mkdep('override2', True, '1')
+        try:
+            mm.override_dependency_method(['foo', odep], {'static': ostatic, 'native': False})
+            if second: mm.override_dependency_method(['foo', odep2], {'static': (not ostatic), 'native': False})
+        except Exception as e:
+            if type(e).__name__ in ('InterpreterException', 'MesonException', 'InvalidArguments'):
+                check(False, 'overriding the shared and the static flavour separately is accepted'); return
+            raise
+        interp.environment = types.SimpleNamespace(wrap_resolver=types.SimpleNamespace(find_dep_provider=lambda n: (None, None), get_varname=lambda s_, n: None))
+        interp.subprojects = {MachineChoice.HOST: {}}
+        calls = {'system': 0}
+        def find_external_dependency(name, env, kwargs):
+            calls['system'] += 1
+            return mkdep('system', True, '9')
+        DF.dependencies = types.SimpleNamespace(find_external_dependency=find_external_dependency, get_dep_identifier=dependencies.get_dep_identifier)
+        df = DF.DependencyFallbacksHolder(interp, ['foo'], MachineChoice.HOST)
+        dep = df.lookup(full({'required': False, 'native': MachineChoice.HOST, 'static': lstatic}))
+        res = dep.label if dep.found() else 'notfound'
+        # which override a lookup must see
+        eff = ostatic if ostatic is not None else {'shared': False, 'static': True, 'both': None}[dlv]       # None here: both flavours registered
+        if lstatic is None: want = {'override'}                                   # an unspecified lookup finds the (first) override
+        elif ostatic is None: want = {'override'} if (eff is None or eff == lstatic) else {'system'}
+        elif lstatic == ostatic: want = {'override'}
+        else: want = {'override2'} if second else {'system'}
+        check(res in want, 'a lookup sees the override registered for its static flavour (and no other)')
+        cover('done')
+    return h
+
+
 # ---------------------------------------------------------------- verified sources
 class FakeWrap:
     def __init__(self, values, filesdir): self.values = values; self.filesdir = filesdir; self.name = 'pkg'
@@ -379,6 +433,7 @@ def obligations(tier):
                       labels=('system', 'subproject', 'notfound', 'error', 'arg-error'), max_paths=3000000),
            Obligation('policy+versions', ob_policy(True, tier != 'quick'), dict(cells='as policy' + (' (quick: without the persistent-cache dimension)' if tier == 'quick' else ''), versions='wanted >= d1, subproject version d2, symbolic digits'),
                       labels=('system', 'subproject', 'notfound', 'error'), max_paths=5000000),
+           Obligation('override-static', ob_override_static(), dict(real='MesonMain.override_dependency_method / _override_dependency_impl, DependencyFallbacksHolder.lookup', override_static='absent | true | false, optionally a second override for the other flavour', lookup_static='absent | true | false', default_library='symbolic shared | static | both'), labels=('done',)),
            Obligation('override', ob_override(), dict(override='found / not found, symbolic version vs symbolic constraint'), labels=('override', 'notfound', 'error')),
            Obligation('sources/source', ob_sources('source'), dict(kinds='url | url+fallback url | packagefiles', faults='existence, digests, download failures symbolic'), labels=('returned', 'refused')),
            Obligation('sources/patch', ob_sources('patch'), dict(kinds='url | url+fallback url | packagefiles'), labels=('returned', 'refused')),
